@@ -356,7 +356,14 @@ fn gen_level(t: &mut Tape<'_>, opts: &GenOpts, depth: usize, name: &str, inh: &I
     }
 
     // ---- args
-    let nargs = if multicall { 0 } else { t.range(0, opts.max_args) };
+    // one level in sixteen is wide: more arguments than the usual handful (containers and key maps of another size)
+    let nargs = if multicall {
+        0
+    } else if t.chance(1, 16) {
+        t.range(opts.max_args + 1, opts.max_args * 2 + 2)
+    } else {
+        t.range(0, opts.max_args)
+    };
     // positional layout
     let mut npos = 0usize;
     let mut args: Vec<ArgSpec> = Vec::new();
